@@ -681,9 +681,23 @@ func orcResolve(op gen.EditOp, st *orcState) (orcCall, bool) {
 	}
 	bg := st.Boards[bi].G
 	objs, edges := bg.Objects, bg.Edges
+	// On nested boards a third of the object selections prefer objects without a label of
+	// their own (they exist only as connection endpoints / path prefixes — typically
+	// inherited from the base board that way).
+	var bare []*d2graph.Object
+	if bi > 0 && (op.Var>>9)%3 == 0 {
+		for _, o := range objs {
+			if o.Label.Value == o.IDVal {
+				bare = append(bare, o)
+			}
+		}
+	}
 	obj := func(sel int) *d2graph.Object {
 		if len(objs) == 0 {
 			return nil
+		}
+		if len(bare) > 0 {
+			return bare[sel%len(bare)]
 		}
 		return objs[sel%len(objs)]
 	}
